@@ -860,7 +860,9 @@ class TransferManager(BaseManager):
             if transfer.is_upload():
                 await transfer.state.fail()
             else:
-                await transfer.state.incomplete()
+                # The transfer is still INITIALIZING, a state from which it
+                # cannot become INCOMPLETE: put it back in the queue
+                await transfer.state.queue()
             return
 
         except asyncio.CancelledError:
